@@ -2,10 +2,11 @@
 # seed_all.sh [seed-id...] : for every stored seeded change (default: all) apply it to /repo, run the quick checks
 # named in its meta.json caught_by list, revert; one line per (seed, check). Needs a clean /repo working tree.
 HERE=$(dirname $(dirname $(realpath $0)))
-cd /repo && [ -z "$(git status --short)" ] || { echo "/repo working tree is not clean"; exit 3; }
+# SEED_LAB=1: use tools/seedlab.sh (scratch worktree + copy of the machinery, set up with `seedlab.sh setup`) instead of /repo
+if [ -z "${SEED_LAB:-}" ]; then cd /repo && [ -z "$(git status --short)" ] || { echo "/repo working tree is not clean"; exit 3; }; fi
 ids="$@"; [ -n "$ids" ] || ids=$(ls $HERE/seeded)
 for id in $ids; do
   checks=$(python3 -c "import json;print(' '.join(json.load(open('$HERE/seeded/$id/meta.json'))['caught_by']))")
   echo "== $id (expected: $checks)"
-  $HERE/tools/seed_run.sh $HERE/seeded/$id/patch.diff $checks
+  if [ -n "${SEED_LAB:-}" ]; then $HERE/tools/seedlab.sh run $HERE/seeded/$id/patch.diff $checks; else $HERE/tools/seed_run.sh $HERE/seeded/$id/patch.diff $checks; fi
 done
